@@ -101,4 +101,6 @@ def main(tier):
     baseloops.check(rep, 'UPD', ['ec_encode_data_update_base', 'gf_vect_mad_base', 'gf_vect_mul_base'], 4)
     import eclayout
     eclayout.check(rep, 'UPD', ['ec_encode_data_update_base', 'gf_vect_mad_base'], 2, writer=False)
+    import stridecover
+    stridecover.check(rep, 'MAD', {'ec_mad', 'ec_mul'}, 250)
     return rep.finish()
